@@ -1971,11 +1971,15 @@ class MacroExpander:
                         current_arg.append(tok)
 
                     pre_expanded = []
+                    needs = macro_lookup.arg_needs_expansion
                     for i, arg in enumerate(args):
-                        if (
-                            i >= len(macro_lookup.arg_needs_expansion)
-                            or macro_lookup.arg_needs_expansion[i]
-                        ):
+                        # Arguments beyond the named parameters belong to the
+                        # variable argument list, i.e. to the last parameter.
+                        if i >= len(needs) and macro_lookup.variadic:
+                            needed = needs[-1]
+                        else:
+                            needed = i >= len(needs) or needs[i]
+                        if needed:
                             arg_expansion = self.expand(
                                 arg,
                                 ident=None,
